@@ -232,6 +232,10 @@ class G:
             b, bt = self.value(N(z), t, d + 1)
             return call(lam(z, b), [v]), bt
         for _ in range(r.randrange(1, 5)):
+            if r.random() < 0.12 and t[0] in ("c", "it"):
+                # a conditional with the same object / collection type on both branches keeps that type as a receiver
+                v = ast.IfExp(test=gen.cmp(ast.Gt, C(1), C(0)), body=v, orelse=gen.clone(v))
+                self.interesting = True
             if t[0] == "c" and t[1] in self.s.fields:
                 f = r.choice(sorted(self.s.fields[t[1]]))
                 self.interesting = True
